@@ -82,7 +82,8 @@ def run(prog, rep, tier):
         for bi, v, s in outputs_in(fv):
             if v not in ("SetHoldTimer", "SetKeepaliveTimer"):
                 continue
-            m = root_name(prog, k).split("::")[-1]
+            from .c07 import handler_name
+            m = handler_name(prog, fv, bi).split("::")[-1]          # the handler, also when it was inlined into the dispatcher
             (got_hold if v == "SetHoldTimer" else got_ka).setdefault(m, []).append((fv, bi, s))
     for got, want, what in ((got_hold, want_hold, "SetHoldTimer"), (got_ka, want_ka, "SetKeepaliveTimer")):
         for m, sites in sorted(got.items()):
